@@ -8,11 +8,34 @@ the process-wide state; the crash is a call unwound half-way.
 
 from __future__ import annotations
 
+import sys
+
 from . import sched
 
 
 class SimAbort(BaseException):
     pass
+
+
+_WITH_LINES: dict = {}
+
+
+def _with_lines(code) -> dict:
+    """line -> offset of the (first) BEFORE_WITH on that line.  CPython attributes the normal-exit clean-up of a
+    `with` block (load three Nones, call __exit__) to the line of the `with` statement, so a second LINE event
+    for that line fires *after* the block and *before* __exit__ - outside the protected range.  Raising there
+    would make every correct `with lock:` leak its lock; no real exception source delivers at that point (no
+    allocation, no eval-breaker check), so it is not a fault this simulator injects."""
+    got = _WITH_LINES.get(code)
+    if got is None:
+        import dis
+
+        got = {}
+        for ins in dis.get_instructions(code):
+            if ins.opname in ("BEFORE_WITH", "BEFORE_ASYNC_WITH") and ins.positions and ins.positions.lineno:
+                got.setdefault(ins.positions.lineno, ins.offset)
+        _WITH_LINES[code] = got
+    return got
 
 
 class AbortInjector:
@@ -38,6 +61,10 @@ class AbortInjector:
             return
         self.count += 1
         if self.count == self.k and self.fired is None:
+            wl = _with_lines(code)
+            if where in wl and sys._getframe(2).f_lasti > wl[where]:
+                self.k += 1  # the clean-up of a `with` block: not an injection point, take the next line instead
+                return
             self.fired = f"{code.co_filename[self.pkg_len:]}:{code.co_name}:L{where}"
             if self.kind == "MemoryError":
                 raise MemoryError("simulated allocation failure")
